@@ -27,6 +27,7 @@ import (
 	"encoding/asn1"
 	"fmt"
 	"math/big"
+	"net"
 	"strings"
 	"time"
 
@@ -41,6 +42,7 @@ import (
 	seg "github.com/scionproto/scion/pkg/segment"
 	"github.com/scionproto/scion/pkg/slayers/path"
 	"github.com/scionproto/scion/private/segment/segverifier"
+	infra "github.com/scionproto/scion/private/segment/verifier"
 	"github.com/scionproto/scion/private/storage/db"
 	"github.com/scionproto/scion/private/storage/trust/sqlite"
 	"github.com/scionproto/scion/private/trust"
@@ -727,6 +729,7 @@ func (e *env) judge(m mutant, orig *cppb.PathSegment, v compat.Verifier, tag str
 		}
 	}
 	holds, named := e.w.stmt(f)
+	e.unitUndisturbed(m, orig, v, f, o, ans, holds)
 	if orig != nil && proto.Equal(m.pb, orig) {
 		m.mustFail = false // the mutation did not change anything
 	}
@@ -839,6 +842,7 @@ func main() {
 	e.malformed(v, e.N(60, 600))
 	e.cacheHistories(e.N(6, 60))
 	e.cacheIdentityHistories(e.N(8, 80))
+	e.unitsInterrupted(v, e.N(24, 240))
 	e.Finish()
 }
 
@@ -1147,6 +1151,149 @@ func (e *env) cacheIdentityHistories(count int) {
 			_ = step("forged-cold", forged()) && step("warm-up", warm()) && step("forged", forged())
 		case 3:
 			step("forged-cold", forged())
+		}
+	}
+}
+
+// ---- second entry point: segverifier.StartVerification / Unit.Verify (what seghandler and the
+// hidden-path forwarder call). Statement: a segment is reported verified only if every entry verified.
+
+// collectUnits runs StartVerification on the segments and returns one verdict per segment
+// (true = reported verified), in input order. ready is called once the units are running.
+func collectUnits(ctx context.Context, v infra.Verifier, segs []*seg.PathSegment, ready func()) ([]bool, string) {
+	metas := make([]*seg.Meta, len(segs))
+	for i, s := range segs {
+		metas[i] = &seg.Meta{Segment: s, Type: seg.TypeDown}
+	}
+	var verdict []bool
+	res, _ := vlib.Safe(func() string {
+		ch, n := segverifier.StartVerification(ctx, v, nil, metas)
+		if n != len(segs) {
+			return fmt.Sprintf("units=%d for %d segments", n, len(segs))
+		}
+		if ready != nil {
+			ready()
+		}
+		verdict = make([]bool, len(segs))
+		guard := time.NewTimer(60 * time.Second) // safety net only, never part of the synchronisation
+		defer guard.Stop()
+		for k := 0; k < n; k++ {
+			select {
+			case r := <-ch:
+				for i, m := range metas {
+					if r.Unit.SegMeta == m {
+						verdict[i] = r.SegError() == nil && len(r.Errors) == 0
+					}
+				}
+			case <-guard.C:
+				return "no unit result within 60s"
+			}
+		}
+		return ""
+	})
+	return verdict, res
+}
+
+// unitUndisturbed: with an undisturbed context the unit's verdict equals VerifySegment's (= the model's).
+func (e *env) unitUndisturbed(m mutant, orig *cppb.PathSegment, v compat.Verifier, f segFacts, o outcome, ans string, holds bool) {
+	if !o.parse {
+		return
+	}
+	s, err := seg.VerifSegmentFromPB(m.pb)
+	if err != nil {
+		return
+	}
+	verdict, problem := collectUnits(context.Background(), v, []*seg.PathSegment{s}, nil)
+	e.Case("unit/"+f.op, "unit/undisturbed", false)
+	switch {
+	case problem != "":
+		e.Violate("C24/unit-broken", "StartVerification: "+problem, e.replay(m.name, m.note, m.pb, orig, f, ans))
+	case verdict[0] && !holds:
+		e.Violate("C24/unit-accepted-"+m.name, "StartVerification/Unit.Verify reports the segment verified although not every "+
+			"entry is properly signed: "+m.note, e.replay(m.name, m.note, m.pb, orig, f, ans))
+	case verdict[0] != o.ok:
+		e.Violate("C24/unit-verdict-differs", fmt.Sprintf("Unit.Verify verdict verified=%v but VerifySegment ok=%v: %s",
+			verdict[0], o.ok, m.note), e.replay(m.name, m.note, m.pb, orig, f, ans))
+	}
+}
+
+// stallVerifier: a verifier whose crypto lookup never completes (slow chain fetch): every Verify
+// announces itself and then waits for the context to end, returning the context's error.
+type stallVerifier struct{ entered chan struct{} }
+
+func (b stallVerifier) Verify(ctx context.Context, _ *cryptopb.SignedMessage, _ ...[]byte) (*signed.Message, error) {
+	select {
+	case b.entered <- struct{}{}:
+	default:
+	}
+	<-ctx.Done()
+	return nil, ctx.Err()
+}
+func (b stallVerifier) WithServer(net.Addr) infra.Verifier          { return b }
+func (b stallVerifier) WithIA(addr.IA) infra.Verifier               { return b }
+func (b stallVerifier) WithValidity(cppki.Validity) infra.Verifier { return b }
+
+// unitsInterrupted: the verification context ends while an AS-entry check is in flight. No entry has
+// verified, so no unit may be reported verified - whether the segment is honest or forged.
+func (e *env) unitsInterrupted(v compat.Verifier, count int) {
+	r := e.r
+	for it := 0; it < count; it++ {
+		k := 1 + r.Intn(3)
+		var segs []*seg.PathSegment
+		var pbs []*cppb.PathSegment
+		var kinds []string
+		for u := 0; u < k; u++ {
+			n := 1 + r.Intn(5)
+			ts := int64(t0 + r.Intn(1800))
+			specs := e.honestSpecs(n, ts)
+			kind := "honest"
+			if r.Bool() { // forged: one entry signed with an uncertified key
+				i := r.Intn(n)
+				ck := e.w.pick(specs[i].ia, "rogue")
+				specs[i].ck, specs[i].kidSK = ck, e.w.pick(specs[i].ia, "main").skid
+				kind = "forged"
+			}
+			ps := e.w.build(r, ts, uint16(r.Intn(65536)), specs, false)
+			segs, pbs, kinds = append(segs, ps), append(pbs, seg.PathSegmentToPB(ps)), append(kinds, kind)
+		}
+		mode := []string{"cancelled-in-flight", "deadline-passed"}[it%2]
+		sv := stallVerifier{entered: make(chan struct{}, 64)}
+		var ctx context.Context
+		var cancel context.CancelFunc
+		var ready func()
+		if mode == "cancelled-in-flight" {
+			ctx, cancel = context.WithCancel(context.Background())
+			ready = func() { // cancel once every unit is inside an AS-entry check
+				guard := time.NewTimer(60 * time.Second)
+				defer guard.Stop()
+				for u := 0; u < k; u++ {
+					select {
+					case <-sv.entered:
+					case <-guard.C:
+					}
+				}
+				cancel()
+			}
+		} else {
+			ctx, cancel = context.WithDeadline(context.Background(), time.Unix(t0, 0))
+		}
+		verdict, problem := collectUnits(ctx, sv, segs, ready)
+		cancel()
+		for u := range segs {
+			e.Case(fmt.Sprintf("unit-int/%d/%d/%s", it, u, vlib.Hex(pbs[u].AsEntries[0].Signed.Signature)), "unit/"+mode+"/"+kinds[u], false)
+			if problem != "" {
+				e.Violate("C24/unit-broken", "StartVerification ("+mode+"): "+problem, map[string]any{"mode": mode})
+				break
+			}
+			if verdict[u] {
+				f := e.w.facts(pbs[u])
+				d := e.replay("unit-"+mode, kinds[u]+" segment", pbs[u], nil, f, "verified")
+				d["context"] = mode
+				d["units_in_batch"] = k
+				e.Violate("C24/unit-verified-without-verification",
+					"StartVerification/Unit.Verify reports a "+kinds[u]+" segment verified (empty error map, SegError nil) although the "+
+						"context ended ("+mode+") while the AS-entry check was in flight and no entry had verified", d)
+			}
 		}
 	}
 }
